@@ -163,6 +163,25 @@ pub fn from_mcp(run: &mut Runner, path: &str, seed: u64, stride: usize) {
     }
 }
 
+/// C08 at the level of the event builder: a good TRG bank plus one bank with a name visited by MC_Names (every
+/// stride-th, and every visited name that starts like an ignored bank: B.., TR.., MC..) carrying six junk
+/// bytes.  Trace_MainEvent decides from the name rules whether the event builds (ignored bank) or not.
+pub fn from_names(run: &mut Runner, path: &str, stride: usize) {
+    for (bi, c) in read_ndjson(path).into_iter().enumerate() {
+        let bytes = bytes_of(&c["s"]);
+        let name = match String::from_utf8(bytes) {
+            Ok(s) => s,
+            Err(_) => continue,
+        };
+        let ignored_like = name.starts_with('B') || name.starts_with("TR") || name.starts_with("MC");
+        if !(bi % stride == 0 || (ignored_like && bi % 5 == 0)) {
+            continue;
+        }
+        let banks = vec![trg_bank_b(500 + bi as u32), BankB { name: name.clone().into_bytes(), data: vec![7, 0, 1, 2, 3, 4] }];
+        emit_event(run, SIM, "name", format!("n{bi}"), banks, json!("?"), Detail::Slots);
+    }
+}
+
 fn maps_for_cached(run: u32) -> Maps {
     use std::collections::HashMap;
     use std::sync::Mutex;
